@@ -187,15 +187,20 @@ def join_sdl(parts):
 
 def code_schema(idx):
     """Code-built schemas: internal enum values differ from their names."""
+    # the two code-built schemas share type names but map them differently
+    # (same python value, different enum name), as two services in one
+    # process would
+    dark, light = (1, 2) if idx % 2 == 0 else (2, 1)
     color = EnumType(
         "Shade",
         [
-            EnumValue("DARK", 1, description="low"),
-            EnumValue("LIGHT", 2, deprecation_reason="too bright"),
+            EnumValue("DARK", dark, description="low"),
+            EnumValue("LIGHT", light, deprecation_reason="too bright"),
             ("MID", (3, "t")),
         ],
         description="Enum with internal values",
     )
+    anyt = ScalarType("Any", serialize=lambda v: v, parse=lambda v: v)
     stamp = ScalarType(
         "Stamp", serialize=lambda v: "S:%d" % v,
         parse=lambda v: int(str(v)[2:]), description="custom scalar")
@@ -229,7 +234,10 @@ def code_schema(idx):
             ]),
             Field("ab", ListType(u)),
             Field("snake_case_name", String, args=[
-                Argument("some_arg", NonNullType(Int))]),
+                Argument("some_arg", NonNullType(Int)),
+                Argument("one", anyt, default_value=1),
+                Argument("yes", anyt, default_value=True),
+                Argument("ratio", anyt, default_value=1.5)]),
         ],
     )
     extra = [Directive("mark", ["FIELD_DEFINITION"],
